@@ -213,6 +213,18 @@ CLAIMED.update({
     },
 })
 
+CLAIMED.update({
+    "C06": {
+        "technique": "static analysis: exhaustive table extraction from MIR over AggregateMode; composition law with the partial/final combining rule; per-mode dispatch reachability",
+        "level": ("Static, exhaustive over the six aggregate modes (x spilling flag): input_mode/output_mode match the stage semantics; "
+                  "CombinePartialFinalAggregate merges only pairs whose merged mode has the inner stage's input mode and the outer "
+                  "stage's output mode; in every aggregates function that can call both update_batch and merge_batch (or state and "
+                  "evaluate) the value-level method is unreachable under a state-level mode and, in memory, vice versa. A thin necessary "
+                  "condition (partial state never evaluated as a value, raw rows never merged as state); group keys, spilling contents, "
+                  "TopK and emission are not decided."),
+    },
+})
+
 NA = {
     'C01': 'whole-pipeline value semantics over all queries x all table contents: functional verification, no clause visible in code shape beyond C03/C05/C47',
     'C08': 'ordering/permutation of runtime values (loser tree, cursors, heaps are value algorithms); no structural clause',
